@@ -42,7 +42,7 @@ def toKebab (U : UnicodeOps) (s : Str) : Str := replaceChar (toSnake U s) '_' ['
 def toScreamingKebab (U : UnicodeOps) (s : Str) : Str := toAsciiUpper (toKebab U s)
 
 /-- `rename_all_to_case`.  `lowercase` / `UPPERCASE` are `str::to_ascii_lowercase` /
-`to_ascii_uppercase` (since the `fix:` commit e0753c7, like serde_derive's `RenameRule`; before it
+`to_ascii_uppercase` (since the `fix:` commit 7d1c05f, like serde_derive's `RenameRule`; before it
 they were the Unicode mappings `U.lowerStr` / `U.upperStr`). -/
 def renameAllToCase (U : UnicodeOps) (original : Str) (rule : Option Str) : Outcome Str :=
   match rule with
